@@ -29,5 +29,7 @@ Emit == (i <= Len(Bases)) =>
   LET b == Bases[i] IN
   PrintT("G " \o ToJson([base |-> i, name |-> b.name,
                          muts |-> SetToSeq(Capped(Mutations(b.bytes, b.family))),
-                         truncs |-> SetToSeq(Truncs(Len(b.bytes)))]))
+                         truncs |-> SetToSeq(Truncs(Len(b.bytes))),
+                         cuts |-> IF b.family = "pack" THEN <<>>
+                                  ELSE SetToSeq(DataCuts(b.bytes, IF b.family = "bin_be" THEN "be" ELSE "le"))]))
 =============================================================================
